@@ -138,6 +138,23 @@ def check_collector(ck: Checker, rid: str):
         elif (lo, hi) != (1, 1):
             bad.append(f'a path ends with the future resolved {lo}..{hi} times')
     ck.paths_examined += len(res)
+    # EOF = the child ended without delivering its outcome: it must never be reported as success, except on the
+    # branch that recognises the library's own terminate() (SIGTERM)
+    from mpsa.guard import Guard
+
+    g = Guard(cfg, cfg.lat)
+    eof = [n for n in cfg.nodes if n.kind == 'except' and 'EOFError' in (n.extra.get('caught') or ())]
+    ok_res = [n for n in cfg.nodes if header_expr(n) is not None and any(method_of(c)[1] == 'set_result' and dotted(method_of(c)[0]) == 'self._future_' for c in calls_in(header_expr(n)))]
+    term_tests = {}
+    for n in cfg.nodes:
+        if n.kind == 'test' and isinstance(n.ast, ast.Compare) and isinstance(n.ast.ops[0], ast.Eq) and ('ENOTBLK' in norm_text(n.ast) or 'SIGTERM' in norm_text(n.ast) or norm_text(n.ast.comparators[0]) == '15'):
+            term_tests[n.id] = 'T'
+    if not eof:
+        bad.append('EOF on the result pipe (child killed / died before sending) is not handled')
+    elif ok_res:
+        p = g.feasible_path([e for e in cfg.succ[eof[0].id]], {k.id for k in ok_res}, edge_ok=lambda e: not (e.src in term_tests and e.kind == term_tests[e.src]))
+        if p is not None:
+            bad.append(f'an EOF on the result pipe can end in set_result (via L{[cfg.nodes[k].lineno for k in p][-3:]}): a child that died without delivering its outcome (killed, or its result/exception could not be pickled) is reported as a success returning None')
     ck.ob(rid, f, (f.node.lineno, '_collect_result exits'), not bad, '; '.join(bad) if bad else 'every exit (result received, EOF after a signal, failing recv) resolves `_future_` exactly once')
 
 
